@@ -123,19 +123,23 @@ func getCertificateInfo(c *x509.Certificate) (Info, error) {
 
 func x509KeyUsages(ku x509.KeyUsage) []string {
 	var ss []string
-	for u, s := range map[x509.KeyUsage]string{
-		x509.KeyUsageDigitalSignature:  "digitalSignature",
-		x509.KeyUsageContentCommitment: "contentCommitment",
-		x509.KeyUsageKeyEncipherment:   "keyEncipherment",
-		x509.KeyUsageDataEncipherment:  "dataEncipherment",
-		x509.KeyUsageKeyAgreement:      "keyAgreement",
-		x509.KeyUsageCertSign:          "certSign",
-		x509.KeyUsageCRLSign:           "cRLSign",
-		x509.KeyUsageEncipherOnly:      "encipherOnly",
-		x509.KeyUsageDecipherOnly:      "decipherOnly",
+	// a slice, not a map: the names must come out in the same (bit) order every time
+	for _, u := range []struct {
+		usage x509.KeyUsage
+		name  string
+	}{
+		{x509.KeyUsageDigitalSignature, "digitalSignature"},
+		{x509.KeyUsageContentCommitment, "contentCommitment"},
+		{x509.KeyUsageKeyEncipherment, "keyEncipherment"},
+		{x509.KeyUsageDataEncipherment, "dataEncipherment"},
+		{x509.KeyUsageKeyAgreement, "keyAgreement"},
+		{x509.KeyUsageCertSign, "certSign"},
+		{x509.KeyUsageCRLSign, "cRLSign"},
+		{x509.KeyUsageEncipherOnly, "encipherOnly"},
+		{x509.KeyUsageDecipherOnly, "decipherOnly"},
 	} {
-		if ku&u == u {
-			ss = append(ss, s)
+		if ku&u.usage == u.usage {
+			ss = append(ss, u.name)
 		}
 	}
 	return ss
